@@ -8,17 +8,23 @@ TECH = "solver-based bounded model checking of the real code: Kani 0.68 / CBMC 6
 TECH2 = TECH + " + MIR->SMT-LIB interleaving encoder decided by z3 and cvc5"
 
 CLAIMS = {
- "C03": ("model_checking", TECH, "ErrorKind::or for all kind pairs and folds over <= 3 extensions; Error id/reason chain; load_from_source over symbolic extension outcomes (see evidence bounds)",
-         "Kani/CBMC; model crates; std io::Error drop glue forgotten (mem::forget) in harnesses; shipped loaders out of scope"),
- "C06": ("model_checking", TECH2, "entry-level reload-id/watcher/global-flag bookkeeping for all sequences of <= 5 operations; update-list precision on the dependency graph kernel; watcher/increment interleavings",
+ "C03": ("model_checking", TECH, "ErrorKind::or for all kind pairs and folds over <= 3 extensions; Error id/reason chain; FileContent::with_cow over all three representations; load_from_source per outcome shape (thorough only, dropped from the claim where undecided)",
+         "Kani/CBMC; model crates; std io::Error / Box<dyn Error> values forgotten (mem::forget) in harnesses; shipped loaders out of scope"),
+ "C06": ("model_checking", TECH2, "entry-level reload-id/watcher/global-flag bookkeeping for all sequences of <= 5 operations; update-list precision on the dependency graph kernel (thorough); watcher/increment interleavings (E2)",
          "Kani/CBMC; model crates; single-location atomics are coherent so SC interleavings are exact"),
- "C07": ("model_checking", TECH, "lock discipline of read guards (all guard shapes) and of UntypedEntry::write against a ghost-state lock model: value/id/flag change only inside the write section; writer blocks under a live guard",
+ "C07": ("model_checking", TECH, "lock discipline of read guards (all guard shapes) and of UntypedEntry::write against a ghost-state lock model: value/id/flag change only inside the write section; writer blocks under a live guard; hot_reload blocks until answered",
          "parking_lot model: reader/writer exclusion trusted; std-lock build not covered"),
+ "C08": ("model_checking", TECH, "monitor discipline of the answer protocol as one-step obligations from symbolic pre-states (who empties/fills the slot must notify; wrong-token callers and a full slot block untouched; tokens unique; reload sends its token then waits), one pass of the real reloader thread, bounded termination of the reverse-dependency visit on look-up cycles",
+         "parking_lot::Condvar without spurious wake-ups (documented) and weak fairness assumed; composition of the one-step obligations into deadlock freedom is a pen-and-paper monitor argument (DESIGN.md)"),
  "C10": ("model_checking", TECH, "entry kind (dynamic iff reloadable type and reloader present); write on static entries refused; get on dynamic entries refused; cache-level histories (see evidence)",
          "Kani/CBMC; model crates"),
  "C13": ("model_checking", TECH, "drop-exactly-once ledger + CBMC allocator checks (double free, dealloc layout, leak) over entry life cycles for 5 value layouts; TypeId discipline for 8 type pairs; wrong-type requests panic and never return",
          "CBMC allocation model stands for the real allocator"),
- "C16": ("model_checking", TECH2, "all contents for every length 0..4 (quick) / ..8 (thorough) through every constructor, every drop order of 3 handles with leak/double-free/layout checks; from_utf8 against an independent UTF-8 automaton for all strings <= 4 bytes; Eq/Ord/Hash agreement",
+ "C14": ("model_checking", TECH, "attribution rule of records::{record,no_record,add_*} for every nesting of depth 2 (quick) / 3 (thorough) over two reloader identities and every assignment of readers; record kinds file/dir/asset; recording cell restored",
+         "thread-local modelled as a static (no helper threads); no unwinding"),
+ "C15": ("model_checking", TECH, "one pass of the real hot_reloading_thread from each channel state: cache dropped with the event sender kept / dropped, idle and alive: it exits or sleeps, never wakes more than twice without consuming a message",
+         "channel model: Select::ready returns on ready-or-disconnected (documented crossbeam behaviour), fair choice"),
+ "C16": ("model_checking", TECH2, "all contents for every length 0..3 (quick) / ..8 (thorough) through every constructor, every drop order of 3 handles with leak/double-free/layout checks; from_utf8 against an independent UTF-8 automaton for all strings <= 4 bytes; Eq/Ord/Hash agreement",
          "CBMC allocation model; serde visitors not built"),
  "C17": ("model_checking", TECH, "all sequences of <= 3 get/get_or_init/get_or_try_init calls with succeeding/failing/seed-mutating initialisers on both code paths (seed with and without Drop), drop ledger + leak checks",
          "once_cell serialisation contract trusted (model); panics outside (no unwinding in Kani)"),
@@ -34,6 +40,7 @@ PENDING = "check under construction in this session (DESIGN.md §6); not claimed
 def main():
     hooks_commits = subprocess.run(["git", "-C", "/repo", "log", "--format=%h %s"], capture_output=True, text=True).stdout.splitlines()
     hook_ids = [l.split()[0] for l in hooks_commits if "verif hook" in l]
+    fix_ids = [l.split()[0] for l in hooks_commits if " fix:" in l]
     man = {
         "version": 1,
         "setup_cmd": "true",
@@ -50,7 +57,7 @@ def main():
         ],
         "checks": [],
         "not_applicable": [],
-        "notes": "exit 0 = all harnesses decided and held; 1 = VIOLATION (replayed); 2 = inconclusive (timeout/OOM/unsupported/vacuous/non-reproducing): never reported as success. Known findings: /verif/known_findings.txt.",
+        "notes": "fix: commits in /repo: " + ", ".join(fix_ids) + ". exit 0 = all harnesses decided and held; 1 = VIOLATION (replayed); 2 = inconclusive (timeout/OOM/unsupported/vacuous/non-reproducing): never reported as success. Known findings: /verif/known_findings.txt.",
     }
     for p in props:
         pid = p["id"]
